@@ -38,7 +38,7 @@ TEXT = {
             "callers mutating a bytearray payload they passed in"),
     "C15": ("identity bit-provenance, first fields, dispatch, stub path, MSM predicate over the finite id universe", "-"),
     "C16": ("non-interference of the label option: taint reaches cell signal labels only; forwarding chain; single consumer; mask-scan schema (shared C09-D1/D2)", "-"),
-    "C17": ("control/data dependence on validate and parsed options; constructor does not touch the stream",
+    "C17": ("control/data dependence on validate and parsed options; constructor does not touch the stream; iterator ends only on a (None, None) result (shared C02-D6)",
             "documented drop of frames failing to parse"),
     "C18": ("helper/table agreement: field coverage, name format, epoch map, guard subset of definitions, 4076_201 helper", "-"),
     "C19": ("name-shape abstract interpretation of datadesc/att2idx/att2name over every generable (key, depth) shape", "-"),
